@@ -5,6 +5,7 @@ CONSTANTS Operands <- OperandsE
  LongOperands <- OperandsB
  LongOps <- OpsLongQ
  LongPres <- PresNone
+ RightTakesRest = FALSE
  GoRemainder = FALSE
  Emit = TRUE
 SPECIFICATION Spec
